@@ -134,6 +134,30 @@ def sc_pwc(d, n, nq, K, encs):
     d.witness(all(k < 0 for k in idx), "no_labels")
 
 
+def sc_pwc_rbf_mean(d, n, K, encs):
+    """rbf kernel with the 'mean' bandwidth heuristic (the bandwidth is computed from the number of labeled samples)"""
+    from skactiveml.classifier import ParzenWindowClassifier
+    idx = [d.choose(f"label{i}", [-1] + list(range(K))) for i in range(n)]
+    X = d.arr([[d.fl(f"x{i}", lo=-2.0, hi=2.0)] for i in range(n)], shape=(n, 1))
+    Xq = d.arr([[d.fl("q", lo=-2.0, hi=2.0)]], shape=(1, 1))
+    res = []
+    for enc in encs:
+        e = ENC[enc]
+        clf = ParzenWindowClassifier(metric="rbf", metric_dict={"gamma": "mean"}, classes=e["classes"][:K], missing_label=e["missing"])
+        try:
+            clf.fit(X, encode(d, idx, enc))
+            res.append((clf.predict_freq(Xq), clf.metric_dict_["gamma"]))
+        except (core.Unencodable, core.PathAbort):
+            raise
+        except Exception as ex:
+            d.prove(False, "fit_predict_succeed_under_every_encoding", info=dict(encoding=enc, error=repr(ex)[:160]))
+            return
+    for enc, (Fq, g) in zip(encs[1:], res[1:]):
+        d.prove(d.eq(g, res[0][1], 1e-12), "same_bandwidth_under_every_encoding", info=dict(encoding=enc))
+        d.prove(d.eq_arr(Fq, res[0][0], 1e-9), "same_frequencies_under_every_encoding", info=dict(encoding=enc))
+    d.witness(any(k < 0 for k in idx) and any(k >= 0 for k in idx), "mixed_labels")
+
+
 # ---------------------------------------------------------------- GreedySamplingTarget (regression: NaN vs -1 sentinel)
 def make_stub_regressor(d, missing):
     from skactiveml.base import SkactivemlRegressor
@@ -270,6 +294,9 @@ HARNESSES = [
     dual_harness("parzen_window", sc_pwc,
                  lambda tier: [dict(n=2, nq=1, K=K, encs=e) for K in ((2,) if tier == "quick" else (2, 3)) for e in PAIRS_Q],
                  UNITS[8:16], required_witnesses=("no_labels",)),
+    dual_harness("parzen_window_rbf_mean_bandwidth", sc_pwc_rbf_mean,
+                 lambda tier: [dict(n=n, K=2, encs=e) for n in ((2, 3) if tier == "quick" else (2, 3, 4)) for e in PAIRS_Q],
+                 UNITS[8:16], required_witnesses=("mixed_labels",), product_abstraction=True),
     dual_harness("greedy_sampling_target", sc_gst,
                  lambda tier: [dict(n=n, b=b, method=m) for n in ((3,) if tier == "quick" else (3, 4)) for b in (1, 2) for m in ("GSy", "GSi")],
                  UNITS[:9] + UNITS[15:16], required_witnesses=("some_labeled",), product_abstraction=True),
